@@ -10,12 +10,12 @@ import numpy as np
 def reps():
     import magpylib as magpy
     return {
-        "magnet": lambda: magpy.magnet.Cuboid(dimension=(1, 1, 1), polarization=(0, 0, 1)),
-        "current": lambda: magpy.current.Circle(diameter=1, current=1),
-        "sensor": lambda: magpy.Sensor(),
-        "dipole": lambda: magpy.misc.Dipole(moment=(0, 0, 1)),
-        "triangle": lambda: magpy.misc.Triangle(vertices=[(0, 0, 0), (1, 0, 0), (0, 1, 0)], polarization=(0, 0, 1)),
-        "triangularmesh": lambda: magpy.magnet.TriangularMesh.from_ConvexHull(points=[(0, 0, 0), (1, 0, 0), (0, 1, 0), (0, 0, 1)], polarization=(0, 0, 1)),
+        "magnet": lambda **k: magpy.magnet.Cuboid(dimension=(1, 1, 1), polarization=(0, 0, 1), **k),
+        "current": lambda **k: magpy.current.Circle(diameter=1, current=1, **k),
+        "sensor": lambda **k: magpy.Sensor(**k),
+        "dipole": lambda **k: magpy.misc.Dipole(moment=(0, 0, 1), **k),
+        "triangle": lambda **k: magpy.misc.Triangle(vertices=[(0, 0, 0), (1, 0, 0), (0, 1, 0)], polarization=(0, 0, 1), **k),
+        "triangularmesh": lambda **k: magpy.magnet.TriangularMesh.from_ConvexHull(points=[(0, 0, 0), (1, 0, 0), (0, 1, 0), (0, 0, 1)], polarization=(0, 0, 1), **k),
     }
 
 
@@ -147,6 +147,22 @@ def sweep(ctx, n_leaves):
                             if given != keep:
                                 bad(f"style:{fam}:caller-dict-modified:{how}", "the style dictionary passed by the caller was modified", {"family": fam, "leaf": key, "sibling": sib, "dict_after": repr(given)})
                                 given = copy.deepcopy(keep)
+                        # an object that got its style AT CONSTRUCTION (underscore keyword, or nested dictionary) and whose .style was never
+                        # read, copied with a nested dictionary for the sibling leaf (same top-level key): the copy carries both leaves,
+                        # the first copy and the second are equal, the original keeps its own
+                        for ctor_how in ("keyword", "dict"):
+                            try:
+                                o7 = mk(**{"style_" + key: v_obj}) if ctor_how == "keyword" else mk(style=nested(key, v_obj))
+                                c1 = o7.copy(style=copy.deepcopy(given)) if rng.random() < 0.5 else o7.copy(**{"style_" + sib.split("_")[0]: copy.deepcopy(given)[sib.split("_")[0]]})
+                                c2 = o7.copy(style=copy.deepcopy(given))
+                            except Exception as e:  # noqa: BLE001
+                                bad(f"style:{fam}:copy-of-constructed:{ctor_how}", f"copy(style=<dict for {sib}>) of an object constructed with a style for {key} raised {type(e).__name__}", {"family": fam, "leaf": key, "sibling": sib})
+                                continue
+                            stats["copy-of-constructed"] = stats.get("copy-of-constructed", 0) + 1
+                            got = [(get_leaf(x.style, key), get_leaf(x.style, sib)) for x in (c1, c2)]
+                            if got[0] != (v_obj, v_sib) or got[1] != (v_obj, v_sib) or get_leaf(o7.style, key) != v_obj or get_leaf(o7.style, sib) != get_leaf(mk().style, sib):
+                                bad(f"style:{fam}:copy-of-constructed:{ctor_how}", f"an object constructed with style {key} = {v_obj!r} ({ctor_how}), never read, copied with a dictionary for {sib} = {v_sib!r}: "
+                                    f"first copy has {got[0]!r}, second copy {got[1]!r}, original {(get_leaf(o7.style, key), get_leaf(o7.style, sib))!r}", {"family": fam, "leaf": key, "sibling": sib})
                         # the same leaf in both notations: the keyword (given last) wins
                         o6 = mk()
                         o6.style.update(nested(key, v_kw), **{key: v_obj})
